@@ -1,3 +1,80 @@
-import Mkdb.Spec.Query
+import Mkdb.Proofs.Select
+import Mkdb.Props.C10
+/-!
+# C05 — single-table SELECT returns what its clauses mean
+
+Property theorems only (proofs in `Mkdb/Proofs/Select.lean`).  Quantifier: every table
+content, every query (any WHERE condition, select list, ORDER BY keys, OFFSET, LIMIT).
+-/
 namespace Mkdb.Exec
+open Mkdb.Sql Mkdb.Exec.SelectP
+
+/-- **C05.select_correct**: the result of a single-table SELECT without aggregates is
+exactly: the rows of the table that satisfy the WHERE condition (in insertion order),
+projected by the select list, sorted by the resolved ORDER BY keys, then OFFSET rows
+dropped and at most LIMIT rows kept — nothing else happens, in that order. -/
+theorem C05_select_correct {fetch : Bytes → Option Table} {q : Select} {t : TableName}
+    {rows : List Row} {hdr : List Field}
+    (hfrom : q.from_ = some (.table t)) (hagg : hasAggr q.list = false)
+    (h : evaluateSelect fetch q = .ok (rows, hdr)) :
+    ∃ tbl src fields filtered projected keys,
+      fetch t.name = some tbl ∧ src = tbl.rows ∧ fields = tableFields t tbl ∧
+      (match q.where_ with
+        | some c => (∀ r ∈ src, ∃ v, evaluate c fields r = .ok v) ∧
+                    filtered = src.filter (keeps c fields)
+        | none => filtered = src) ∧
+      projectColumns q.list fields filtered = .ok (projected, hdr) ∧
+      resolveSortKeys q.orderBy hdr = .ok keys ∧
+      (∀ a ∈ projected, ∀ b ∈ projected, KeyComparable keys a b) ∧
+      rows = cut q.lim (sortRows keys projected) :=
+  select_single_table hfrom hagg h
+
+/-- **C05.sort**: the sorting step returns a permutation of its input that is sorted by
+the keys (ASC/DESC per key), for every key list and every row list. -/
+theorem C05_sort (keys : List (Nat × Bool)) (rows : List Row) :
+    (sortRows keys rows).Perm rows ∧ Spec.sortedBy keys (sortRows keys rows) = true :=
+  ⟨sortRows_perm keys rows, sortRows_sorted keys rows⟩
+
+/-- **C05.insertion_order**: without ORDER BY the rows come back in insertion order. -/
+theorem C05_no_order_by (rows : List Row) : sortRows [] rows = rows := sortRows_stable_nokeys rows
+
+/-- **C05.cmp_strict_weak**: on rows whose key columns hold values of one type (or NULL)
+the multi-key ASC/DESC comparator is a strict weak order — the hypothesis under which the
+library sort (`sort.Slice`) is trusted to produce a sorted permutation. -/
+theorem C05_cmp_strict_weak (keys : List (Nat × Bool)) (S : List Row)
+    (hS : ∀ a ∈ S, ∀ b ∈ S, KeyComparable keys a b) : StrictWeakOn (rowLess keys) S :=
+  rowLess_strict_weak keys S hS
+
+/-- **C05.limit_offset**: the final rows are `take LIMIT (drop OFFSET sorted)` of a sorted
+permutation of the projected rows, and are themselves sorted. -/
+theorem C05_limit_offset {fetch : Bytes → Option Table} {q : Select} {t : TableName}
+    {rows : List Row} {hdr : List Field}
+    (hfrom : q.from_ = some (.table t)) (hagg : hasAggr q.list = false)
+    (h : evaluateSelect fetch q = .ok (rows, hdr)) :
+    ∃ keys fields filtered projected sorted,
+      projectColumns q.list fields filtered = .ok (projected, hdr) ∧
+      Spec.sortKeys q hdr = some keys ∧
+      sorted = sortRows keys projected ∧ sorted.Perm projected ∧
+      Spec.sortedBy keys sorted = true ∧
+      sorted.Pairwise (fun a b => rowLess keys b a = false) ∧
+      rows = (let off := if q.lim.offsetActive then q.lim.offset.toNat else 0
+              let d := sorted.drop off
+              if q.lim.limitActive then d.take q.lim.limit.toNat else d) ∧
+      Spec.sortedBy keys rows = true :=
+  limit_offset_spec hfrom hagg h
+
+/-- **C05.where**: the WHERE step keeps exactly the rows on which the condition holds, in order. -/
+theorem C05_where {c : Cond} {fields : List Field} {rows out : List Row}
+    (h : filterRows c fields rows = .ok out) :
+    (∀ r ∈ rows, ∃ v, evaluate c fields r = .ok v) ∧ out = rows.filter (keeps c fields) :=
+  filterRows_ok h
+
+/-- **C05.precedence** is `C10_cond_roundtrip`: every parenthesis-free AND/OR combination
+parses to the tree with AND binding tighter than OR; `evaluate` then computes
+`(… ∧ …) ∨ …` on that tree. -/
+theorem C05_or_of_and (p q r : Pred) (fields : List Field) (row : Row) (a b c : Bool)
+    (hp : evalPred p fields row = .ok a) (hq : evalPred q fields row = .ok b) (hr : evalPred r fields row = .ok c) :
+    evaluate (Sql.orTree (p, [q]) [(r, [])]) fields row = .ok (.bool ((a && b) || c)) := by
+  simp [Sql.orTree, Sql.andTree, evaluate, hp, hq, hr, bind, Bind.bind]
+
 end Mkdb.Exec
